@@ -37,3 +37,18 @@ package sn2core
 //@   loop 1: invariant own_slices: fresh(mergedTxs) && fresh(mergedReceipts) && fresh(mergedStateDiffs) && len(mergedTxs) == n + addedCount && len(mergedReceipts) == n + addedCount && len(mergedStateDiffs) == n + addedCount && n >= 0
 //@   ensures new_entry: result1 == nil ==> result0.Block != nil && fresh(result0.Block) && result0.Block.Header != nil && fresh(result0.Block.Header) && result0.StateUpdate != nil && fresh(result0.StateUpdate) && result0.StateUpdate.StateDiff != nil && fresh(result0.StateUpdate.StateDiff)
 //@   ensures same_round: result1 == nil ==> result0.BlockIdentifier == current.BlockIdentifier && current.BlockIdentifier == delta.BlockIdentifier
+
+// The squashed state diff of a full pre-confirmed block merges the diff of EVERY transaction, in
+// order (reverted transactions included: their fee and nonce effects are part of the state), so
+// that the block-level overlay agrees with the per-transaction diffs.
+//@ extern func github.com/NethermindEth/juno/core/pending.NewPreConfirmed
+//@ func AdaptPreConfirmedBlock
+//@   props C20
+//@   arith int
+//@   nosafe
+//@   requires response != nil
+//@   assigns calls_DiffMerge, arg_DiffMerge_d, arg_DiffMerge_incoming
+//@   callsite StateDiff.Merge@*: into_a_diff_of_its_own: $0 != nil && fresh($0) && $1 == txStateDiff
+//@   loop 1: invariant sizes: txCount == len(response.Transactions) && len(txStateDiffs) == txCount && len(txns) == txCount && len(receipts) == txCount && fresh(txStateDiffs) && fresh(txns) && fresh(receipts) && calls_DiffMerge == old(calls_DiffMerge)
+//@   loop 2: invariant merged_so_far: len(txStateDiffs) == len(response.Transactions) && calls_DiffMerge == old(calls_DiffMerge) + rangeindex + 1 && rangeindex + 1 <= len(txStateDiffs)
+//@   ensures every_transaction_merged: result1 == nil ==> calls_DiffMerge == old(calls_DiffMerge) + len(response.Transactions)
